@@ -17,7 +17,6 @@ Sections (every sub-case is one call of the real elfi API on explicit small inpu
   cmp-e2e   : compare_models on Samples of real Rejection runs (integer discrepancies => ties).
 """
 import itertools
-from fractions import Fraction
 
 import numpy as np
 
@@ -662,7 +661,7 @@ def run(ctx):
         for p in (1, 2):
             if p == 2 and (q and (n, k) not in ((3, 1), (4, 1), (3, 2)) or not q and (n, k) == (5, 2)):
                 continue
-            thetas = [T for _, _, T in bases(n, k, p, base, 1 if q and (n, k) == (4, 2) else n_theta)]
+            thetas = [T for _, _, T in bases(n, k, p, base, 1 if q and (n, k) == (4, 2) else 2 if (n, k) == (5, 2) else n_theta)]
             for obs in obs_list:
                 for lo, hi in _chunks(total, 150 if q else 1000):
                     blocks.append({'kind': 'blk-grid', 'n': n, 'k': k, 'p': p, 'vals': vals, 'obs': obs[:k],
@@ -684,7 +683,7 @@ def run(ctx):
 
     # ------------------------------------------------------------------ nonfinite / affine / names
     ns = (3, 4, 5, 6)
-    nb = 2 if q else 5
+    nb = 2 if q else 4
     blocks_nf, blocks_af, blocks_nm = [], [], []
     refit_pool = []
     for n in ns:
